@@ -2,6 +2,7 @@
    blocking-async): Rust files as rose trees of items / statements / expressions, the traversal
    shared by model and specification, and the small data types the generated layer is expressed in.
    Definitions only.  No dependency on Gen. *)
+From Coq Require Import NArith.
 From TL Require Import Lib.Base.
 
 (* ------------------------------------------------------------------ abstract Rust files *)
@@ -63,23 +64,37 @@ Definition stmt_pos (k : kind) (i : nat) : bool := has_block k && (hdr k <=? i).
 (* identifier tokens of an attribute text such as #[cfg(not(test))] or #[tokio::test(flavor = "multi_thread")]:
    maximal runs of letters, digits and _ that start with a letter or _, outside string literals (tree-sitter types
    the path segments and the names inside the attribute's token tree as `identifier`) *)
-Definition is_ident_start (a : ascii) : bool :=
-  let n := nat_of_ascii a in ((65 <=? n) && (n <=? 90)) || ((97 <=? n) && (n <=? 122)) || (n =? 95).
-Definition is_ident_char (a : ascii) : bool :=
-  let n := nat_of_ascii a in is_ident_start a || ((48 <=? n) && (n <=? 57)).
-Definition flush (cur : string) : list string := match cur with EmptyString => [] | _ => [cur] end.
-Fixpoint attr_tokens (s : string) (instr : bool) (cur : string) : list string :=
+(* character codes as binary numbers: these tests run once per character of every attribute text and source line *)
+Definition code_in (a : ascii) (lo hi : BinNums.N) : bool := let n := N_of_ascii a in (BinNat.N.leb lo n && BinNat.N.leb n hi)%bool.
+Definition is_ident_start (a : ascii) : bool := code_in a 65%N 90%N || code_in a 97%N 122%N || code_in a 95%N 95%N.
+Definition is_ident_char (a : ascii) : bool := is_ident_start a || code_in a 48%N 57%N.
+(* tokens of an attribute text: identifiers, parentheses, commas, string literals (with backslash escapes), other
+   punctuation; white space separates *)
+Inductive atok := AId (s : string) | ALP | ARP | AComma | AStr | AOther (a : ascii).
+Definition is_space (a : ascii) : bool := code_in a 9%N 13%N || code_in a 28%N 32%N.
+Definition flush_t (cur : string) : list atok := match cur with EmptyString => [] | _ => [AId cur] end.
+Definition punct (a : ascii) : list atok :=
+  if Ascii.eqb a "("%char then [ALP] else if Ascii.eqb a ")"%char then [ARP]
+  else if Ascii.eqb a ","%char then [AComma] else if is_space a then [] else [AOther a].
+(* st: 0 = outside a string literal, 1 = inside, 2 = inside after a backslash *)
+Fixpoint attr_lex (s : string) (st : nat) (cur : string) : list atok :=
   match s with
-  | EmptyString => flush cur
+  | EmptyString => flush_t cur
   | String a r =>
-    if instr then attr_tokens r (negb (Ascii.eqb a """"%char)) ""
-    else if Ascii.eqb a """"%char then flush cur ++ attr_tokens r true ""
-    else if is_ident_char a && (negb (String.eqb cur "") || is_ident_start a)
-         then attr_tokens r false (cur ++ String a EmptyString)
-    else flush cur ++ attr_tokens r false ""
+    match st with
+    | 0 => if Ascii.eqb a """"%char then flush_t cur ++ attr_lex r 1 ""
+           else if is_ident_char a && (negb (String.eqb cur "") || is_ident_start a)
+                then attr_lex r 0 (cur ++ String a EmptyString)
+           else flush_t cur ++ punct a ++ attr_lex r 0 ""
+    | 1 => if Ascii.eqb a """"%char then AStr :: attr_lex r 0 ""
+           else if Ascii.eqb a "\"%char then attr_lex r 2 "" else attr_lex r 1 ""
+    | _ => attr_lex r 1 ""
+    end
   end.
+Definition attr_tokens (text : string) : list string :=
+  flat_map (fun t => match t with AId x => [x] | _ => [] end) (attr_lex text 0 "").
 Definition pre_idents (pre : list sib) : list string :=
-  flat_map (fun s => match s with SAttr t => attr_tokens t false "" | SComment => [] end) pre.
+  flat_map (fun s => match s with SAttr t => attr_tokens t | SComment => [] end) pre.
 
 (* identifier tokens of a node (tree-sitter `identifier` leaves): outside macro invocations method
    and field names are field_identifiers; inside a macro's token tree every name is an identifier.
@@ -119,8 +134,6 @@ Fixpoint line_at (ls : srclines) (row : nat) : string :=
   end.
 
 (* str.strip(): leading and trailing ASCII whitespace removed *)
-Definition is_space (a : ascii) : bool :=
-  let n := nat_of_ascii a in ((9 <=? n) && (n <=? 13)) || ((28 <=? n) && (n <=? 32)).
 Fixpoint lstrip (s : string) : string :=
   match s with String a r => if is_space a then lstrip r else s | EmptyString => s end.
 Fixpoint rstrip (s : string) : string :=
